@@ -3647,7 +3647,10 @@ func (d *Data) GetLabelBytesAtScaledPoint(v dvid.VersionID, pt dvid.Point, scale
 		return nil, fmt.Errorf("Can't determine block of point %s", pt)
 	}
 	blockSize := d.BlockSize()
-	bcoord := coord.Chunk(blockSize).(dvid.ChunkPoint3d)
+	bcoord, ok := coord.Chunk(blockSize).(dvid.ChunkPoint3d)
+	if !ok {
+		return nil, fmt.Errorf("point %s is not a 3d point", pt)
+	}
 
 	labelData, err := d.GetLabelBytesWithScale(v, bcoord, scale)
 	if err != nil {
